@@ -143,7 +143,7 @@ let gap_chars_ok (le : str) (g : str) : bool =
     | l -> (match strip_prefix le l with Some r -> go r | None -> false) in
   go g
 
-let c01_check (o : options) (text : str) (lines : ol list) : string option =
+let c01_check ?(owned = false) (o : options) (text : str) (lines : ol list) : string option =
   let le = le_str o.o_le in
   let tarr = Array.of_list text in
   let n = Array.length tarr in
@@ -184,7 +184,7 @@ let c01_check (o : options) (text : str) (lines : ol list) : string option =
                       gap_chars_ok le (sub pos s)
                       && matches_at s sl
                       && (let cow_ok =
-                            if ind = [] && not inserted then
+                            if ind = [] && not inserted && not owned then
                               (l.kind = "B" && l.off = boff.(s)) || (l.kind = "S" && (sl = [] || text = []))
                             else true in
                           if not cow_ok then (why := Printf.sprintf "line %d is not a borrowed sub-slice at its place in the buffer" idx; false) else true)
@@ -614,8 +614,9 @@ let run (lineno : int) (lbc : str -> n list) ofit (args : string array) (impl : 
         (match ps with
          | [fast; slow] ->
              let ind = if first then o.o_ii else o.o_si in
-             let shortcut = n_lt (blen line) o.o_width && ind = [] in
-             if shortcut && fast <> slow then say "C05" "FAIL" "the byte-length shortcut is observable: fast and slow path differ"
+             (* wrap_single_line decides itself whether to take the shortcut; whenever it
+                does, the result must be that of the general path *)
+             if fast <> slow then say "C05" "FAIL" "the shortcut is observable: wrap_single_line and its general path differ"
              else begin
                let alg_ok = (match o.o_alg with FirstFit -> true | OptimalFit p -> default_pen p) in
                if alg_ok && n_le (N.add (dwm line) (dwm ind)) o.o_width then begin
@@ -670,7 +671,17 @@ let run (lineno : int) (lbc : str -> n list) ofit (args : string array) (impl : 
              else if not (List.mem lF o.o_ii || List.mem lF o.o_si)
                      && ds r7 <> List.concat_map (fun c -> if N.eqb c lF then [cR; lF] else [c]) (ds r6) then
                say "C09" "FAIL" "switching LF to CRLF changes more than the line endings"
-             else say "C09" "ok" ""
+             else say "C09" "ok" "";
+             (* C01 for fill: the lines of fill's result, re-parsed like wrap's lines (they are
+                owned, so the borrowing clause does not apply); judged only when the result
+                splits into as many lines as wrap returned and wrap's own lines pass *)
+             let full = a @ le @ b in
+             let fl = split_le o.o_le (ds r5) in
+             if List.length fl = List.length t2 then begin
+               match c01_check ~owned:true o full (List.map (fun t -> { kind = "O"; off = 0; txt = t }) fl), c01_check o full t2 with
+               | Some why, None -> say "C01" "FAIL" ("fill: " ^ why)
+               | _ -> say "C01" "ok" "fill"
+             end
          | _ -> ())
     | "wrap13" ->
         let o = dopts (f 1) and t = ds (f 2) in
